@@ -3,7 +3,7 @@ C14 — Mapped bytecode is equivalent to the parsed operation list.
 (The execution-equivalence part, `exec_access_congr`, lives with the VM model.)
 -/
 import Essential.Lemmas.Asm
-import Essential.Props.C13
+import Essential.Lemmas.Codec
 
 namespace Essential.C14
 open Essential Spec
@@ -107,7 +107,7 @@ theorem allOk_map_ok (ops : List Op) : allOk (ops.map .ok) = .ok ops := by
 /-- whenever a byte string parses to `ops`, the mapping is the list of byte offsets of `ops` -/
 theorem mapped_of_decode (bs : List Nat) (hb : AllBytes bs) (ops : List Op) (h : decode bs = .ok ops) :
     Mapped.tryFromBytes bs = .ok { bytecode := bs, opIndices := offsets 0 ops } ∧ ∀ op ∈ ops, op.WF := by
-  obtain ⟨henc, hwf⟩ := Essential.C13.encode_decode bs hb ops h
+  obtain ⟨henc, hwf⟩ := Essential.Codec.encode_decode bs hb ops h
   refine ⟨?_, hwf⟩
   unfold Mapped.tryFromBytes
   have := mapIndices_encode 0 ops []
@@ -119,7 +119,7 @@ theorem mapped_ops_eq (bs : List Nat) (hb : AllBytes bs) (ops : List Op) (h : de
     (m : Mapped) (hm : Mapped.tryFromBytes bs = .ok m) : m.ops = .ok ops := by
   obtain ⟨h1, hwf⟩ := mapped_of_decode bs hb ops h
   rw [h1] at hm; cases hm
-  obtain ⟨henc, _⟩ := Essential.C13.encode_decode bs hb ops h
+  obtain ⟨henc, _⟩ := Essential.Codec.encode_decode bs hb ops h
   unfold Mapped.ops
   simp only
   have := expectOpAt_offsets [] ops hwf
@@ -131,7 +131,7 @@ theorem mapped_op_eq_get (bs : List Nat) (hb : AllBytes bs) (ops : List Op) (h :
     (m : Mapped) (hm : Mapped.tryFromBytes bs = .ok m) (i : Nat) : m.op i = .ok ops[i]? := by
   obtain ⟨h1, hwf⟩ := mapped_of_decode bs hb ops h
   rw [h1] at hm; cases hm
-  obtain ⟨henc, _⟩ := Essential.C13.encode_decode bs hb ops h
+  obtain ⟨henc, _⟩ := Essential.Codec.encode_decode bs hb ops h
   have hmap := expectOpAt_offsets [] ops hwf
   simp only [List.length_nil, List.nil_append] at hmap
   unfold Mapped.op
@@ -174,6 +174,6 @@ theorem from_ops_spec (ops : List Op) :
 /-! non-vacuity -/
 example : decode [1,0,0,0,0,0,0,0,42,2,3] = .ok [.stackPush 42, .stackPop, .stackDup] := by
   have : [1,0,0,0,0,0,0,0,42,2,3] = encode [.stackPush 42, .stackPop, .stackDup] := by decide
-  rw [this]; exact Essential.C13.decode_encode _ (by decide)
+  rw [this]; exact Essential.Codec.decode_encode _ (by decide)
 
 end Essential.C14
